@@ -4,6 +4,8 @@ mod smoke;
 mod light;
 mod rooms;
 mod c01;
+mod c03;
+mod syncworld;
 mod c07;
 mod c10;
 
@@ -14,6 +16,8 @@ fn main() {
         "C01" => c01::run(&args),
         "C10" => c10::run(&args),
         "C07" => c07::run(&args),
+        "C03" => c03::run(&args, "C03"),
+        "C11" => c03::run(&args, "C11"),
         other => {
             eprintln!("unknown property {}", other);
             2
